@@ -81,3 +81,43 @@ def both_and_normalize_findings():
     with and_keeps_clauses_next_to_fielded_every():
         with nested_ranges_intersect_to_inner():
             yield
+
+
+@contextlib.contextmanager
+def and_does_not_merge_ranges():
+    """And.normalize() replaces two overlapping ranges on one field by their intersection.
+    That is only equivalent for single-valued fields: a document with the tokens 'b' and
+    'aa' matches And([TermRange(f,'ab',None), TermRange(f,'a','b')]) through two different
+    terms, but not the merged TermRange(f,'ab','b').  tests/test_queries.py::
+    test_merge_ranges pins And([TermRange(f,'a',None), TermRange(f,None,'z')]).normalize()
+    == TermRange(f,'a','z')."""
+    from whoosh.query import compound, ranges
+    orig_norm = compound.And.normalize
+    orig_over = ranges.RangeMixin.overlaps
+    depth = [0]
+
+    def normalize(self):
+        depth[0] += 1
+        try:
+            return orig_norm(self)
+        finally:
+            depth[0] -= 1
+
+    def overlaps(self, other):
+        if depth[0] > 0:
+            return False
+        return orig_over(self, other)
+    compound.And.normalize = normalize
+    ranges.RangeMixin.overlaps = overlaps
+    try:
+        yield
+    finally:
+        compound.And.normalize = orig_norm
+        ranges.RangeMixin.overlaps = orig_over
+
+
+@contextlib.contextmanager
+def and_normalize_every_and_ranges():
+    with and_does_not_merge_ranges():
+        with and_keeps_clauses_next_to_fielded_every():
+            yield
